@@ -69,6 +69,7 @@ func (w *World) verifyFunction(fn *ssa.Function, fc *FuncContract) (res *FuncRes
 			}
 		}
 	}
+	var fvCells []*ssa.FreeVar
 	for _, fv := range fn.FreeVars {
 		so := w.sortOf(fv.Type())
 		c := enc.declare("fv_"+fv.Name(), so)
@@ -78,6 +79,7 @@ func (w *World) verifyFunction(fn *ssa.Function, fc *FuncContract) (res *FuncRes
 			enc.assume(Not(Eq(c, IntLit(0))), "captured cell is non-nil")
 		}
 		fr.paramTV[fv.Name()] = TV{c, fv.Type()}
+		fvCells = append(fvCells, fv)
 	}
 	entry := st.clone()
 	pre := &Env{w: w, vars: map[string]TV{}, state: entry, old: entry, scope: fr.scopeOf()}
@@ -88,6 +90,30 @@ func (w *World) verifyFunction(fn *ssa.Function, fc *FuncContract) (res *FuncRes
 		for _, rq := range fc.Requires {
 			pre.where = rq.Where()
 			enc.assume(fr.safeTr(pre, rq), "requires "+rq.Where())
+		}
+	}
+	if fc != nil && len(fc.Captured) > 0 {
+		// captured variables are cells: bind each name to the value held at entry
+		cenv := &Env{w: w, vars: map[string]TV{}, state: entry, old: entry, scope: fr.scopeOf()}
+		for _, fv := range fvCells {
+			if pt, ok := fv.Type().Underlying().(*types.Pointer); ok {
+				cenv.vars[fv.Name()] = TV{cenv.loadPtr(entry, fr.bindings[fv], pt.Elem()), pt.Elem()}
+			}
+		}
+		for _, cp := range fc.Captured {
+			cenv.where = cp.Where()
+			func() {
+				defer func() {
+					if r := recover(); r != nil {
+						if ue, ok := r.(unsupportedErr); ok && strings.Contains(ue.msg, "unknown identifier") {
+							return // this literal does not capture the variable
+						}
+						panic(r)
+					}
+				}()
+				enc.assume(fr.safeTr(cenv, cp), "ASSUMED about captured variables "+cp.Where())
+				w.assumptions["ASSUMED (not checked at call sites) about the variables captured by function literals behaving as "+fc.Key+": "+cp.Text] = true
+			}()
 		}
 	}
 	if fc != nil {
@@ -164,6 +190,13 @@ func (w *World) verifyFunction(fn *ssa.Function, fc *FuncContract) (res *FuncRes
 		post.where = en.Where()
 		t := fr.safeTr(post, en)
 		enc.oblige(fmt.Sprintf("ensures%d", i+1), en.Where(), en.Text, en.Tags, anyRet, t)
+	}
+	// internal checks: may mention local variables of the function
+	post.resolve = func(name string) (TV, bool) { return fr.resolveName(name, nil) }
+	for i, en := range fc.Checks {
+		post.where = en.Where()
+		t := fr.safeTr(post, en)
+		enc.oblige(fmt.Sprintf("ensures_check%d", i+1), en.Where(), en.Text, en.Tags, anyRet, t)
 	}
 	fr.frameObligations(fc, pre, entry, final, anyRet)
 	return
